@@ -133,6 +133,21 @@ func checkC01(rt *rapid.T, c c01case) {
 			rt.Fatalf("bytes depend on buffer contents: after %d junk bytes got\n%x\ninto an empty buffer\n%x", len(c.prefix), dirty.Buf[len(c.prefix):], clean.Buf)
 		}
 	}
+	// (1b) the same into a *reused* buffer: spare capacity full of what an earlier, longer
+	// packet left there (the client resets and reuses one buffer), behind the junk prefix if any.
+	{
+		_, in2 := libInput(c.cols, c.bulk)
+		backing := bytes.Repeat([]byte{0xAB, 0xCD, 0xEF}, (len(clean.Buf)+len(c.prefix))/3+40)
+		copy(backing, c.prefix)
+		reused := proto.Buffer{Buf: backing[:len(c.prefix)]}
+		if err := safely(func() error { return blk.EncodeBlock(&reused, c.rev, in2) }); err != nil {
+			rt.Fatalf("EncodeBlock(reused buffer): %v", err)
+		}
+		if !bytes.Equal(reused.Buf[:len(c.prefix)], c.prefix) || !bytes.Equal(reused.Buf[len(c.prefix):], clean.Buf) {
+			rt.Fatalf("bytes depend on what the reused buffer held in its spare capacity: types %v, %d rows, first difference at %d\nreused %x\nfresh  %x",
+				typeNames(c.cols), c.rows, firstDiff(reused.Buf[len(c.prefix):], clean.Buf), reused.Buf[len(c.prefix):], clean.Buf)
+		}
+	}
 	data := clean.Buf
 
 	// (2) reference decoder on the library's bytes; canonical kinds byte-equal.
